@@ -112,7 +112,21 @@ func genProtocol(p *pworld, run func(string) string, r *rng.R, maxOps int) {
 	run("pinit")
 	n := r.Range(4, maxOps)
 	for i := 0; i < n; i++ {
-		switch r.Pick(30, 30, 18, 12, 5, 5) {
+		switch r.Pick(30, 30, 18, 12, 5, 5, 4) {
+		case 6:
+			// the global allocator ahead of everything, a global request (which writes its MaxTS into the local
+			// allocators), then every local allocator steps down and comes back: it must resume above that request
+			f := strings.Fields(p.view())
+			var ms, l int64
+			fmt.Sscanf(strings.ReplaceAll(f[0], ":", " "), "%d %d", &ms, &l)
+			if r.Bool(2, 3) {
+				run(fmt.Sprintf("setts 0 %d %d", ms+int64(r.Range(5000, 600000)), r.Intn(1000)))
+			}
+			run(fmt.Sprintf("req 0 %d", []int{1, 2, 5}[r.Intn(3)]))
+			run("lrestart")
+			run(fmt.Sprintf("req %d 1", r.Range(1, 2)))
+			run("req 0 1")
+			run("pinit")
 		case 4:
 			// a local allocator close to the logical limit: the global request has to carry into the
 			// physical part when it re-adds its count (afterwards every memory is small again)
